@@ -4,6 +4,8 @@ pub mod c03;
 pub mod c04;
 pub mod c05;
 pub mod c06;
+pub mod c07;
+pub mod c08;
 pub mod c09;
 pub mod c10;
 pub mod c11;
@@ -48,6 +50,8 @@ pub fn run(id: &str, report: &mut Report, replay: Option<&str>) {
         "C04" => c04::run(report, replay_val.as_ref()),
         "C05" => c05::run(report, replay_val.as_ref()),
         "C06" => c06::run(report, replay_val.as_ref()),
+        "C07" => c07::run(report, replay_val.as_ref()),
+        "C08" => c08::run(report, replay_val.as_ref()),
         "C09" => c09::run(report, replay_val.as_ref()),
         "C10" => c10::run(report, replay_val.as_ref()),
         "C11" => c11::run(report, replay_val.as_ref()),
